@@ -22,12 +22,17 @@ Proof. exact c18_shape. Qed.
 Print Assumptions C18_shape.
 
 (* If ANYTHING exists at the target — a file, a directory, a symbolic link whether it resolves or dangles — Move
-   (both branches, with or without the lock prelude, under EVERY fault oracle) returns Err, leaves the file system exactly
-   as it was (Leibniz equality of the state) and logs only the error itself; it is not counted (C05_counted_iff_ok). *)
+   (both branches, with or without the lock prelude, under EVERY fault oracle) returns Err and logs only the error itself;
+   it is not counted (C05_counted_iff_ok).  Since 730c76a the parent directories of the target are created BEFORE the
+   target is looked up, so the file system may have GAINED directories (dirs_added: every name that existed and every inode
+   is unchanged, names that did not exist are still absent or are now directories) — in the final state and in every
+   state a crash can expose.  (When the target exists its parent directories exist, so on a real tree nothing is created
+   unless DIR is spelled through a missing directory, e.g. newdir/../out: then newdir is created and the move refused.) *)
 Theorem C18_no_overwrite : forall (sl : bool) (src tgt : path) (rn : bool) (now : Z) (s : fs),
   names s (norm tgt) <> None ->
   forall (o : oracle) (i : nat),
-    let r := run o i (prog_of sl (FMove src tgt rn now)) s in ofs r = s /\ ores r = IErr /\ owarn r = 0%nat.
+    (forall st, In st (states o i (prog_of sl (FMove src tgt rn now)) s) -> dirs_added s st) /\
+    let r := run o i (prog_of sl (FMove src tgt rn now)) s in dirs_added s (ofs r) /\ ores r = IErr /\ owarn r = 0%nat.
 Proof. exact c18_no_overwrite. Qed.
 Print Assumptions C18_no_overwrite.
 
